@@ -171,7 +171,8 @@ class Names:
                         self.group_key = s_.targets[0].attr
                     if len(ps) > 2 and s_.value.id == ps[2]:
                         self.group_state = s_.targets[0].attr
-        adv = ctx.unit("itertools.GroupBy.__anext__")
+        from asl.inline import private_class_policy as _pcp
+        adv = ctx.inlined(ctx.unit("itertools.GroupBy.__anext__"), policy=_pcp)  # (the advance may be split into private steps)
         # live-group field: the state attribute that receives the freshly built group
         self.live = None
         group_names = set()
@@ -211,11 +212,27 @@ class Names:
                     for x in ast.walk(t):
                         if isinstance(x, ast.Attribute) and isinstance(x.ctx, ast.Store):
                             stored.add(x.attr)
-        stored.discard(self.live)
+        stored -= {self.live, self.value, self.key}  # (the live-group field; the fields the pulling step publishes)
         if len(stored) == 1:
             self.target = stored.pop()
+        elif len(stored) > 1:
+            # several more fields are written on the way: the target key is the one that receives the current key
+            from_key = set()
+            for s_ in own_nodes(adv.node):
+                if isinstance(s_, ast.Assign) and any(isinstance(x, ast.Attribute) and x.attr == self.key and isinstance(x.ctx, ast.Load)
+                                                       for x in ast.walk(s_.value)) or (
+                        isinstance(s_, ast.Assign) and isinstance(s_.value, ast.Name)
+                        and any(isinstance(d, ast.Assign) and any(isinstance(t, ast.Name) and t.id == s_.value.id for t in d.targets)
+                                and any(isinstance(x, ast.Attribute) and x.attr == self.key for x in ast.walk(d.value))
+                                for d in own_nodes(adv.node))):
+                    for t in s_.targets:
+                        if isinstance(t, ast.Attribute) and t.attr in stored:
+                            from_key.add(t.attr)
+            if len(from_key) == 1:
+                self.target = from_key.pop()
         # the "no item held" marker: a class-level attribute of the state bound to a fresh object()
         self.sentinel = None
+        self.markers = set()
         sinfo = ctx.pkg.cls("itertools._GroupByState")
         from .common import uncast
         for s_ in sinfo.node.body:
@@ -223,6 +240,15 @@ class Names:
             val = uncast(s_.value) if isinstance(s_, (ast.Assign, ast.AnnAssign)) and s_.value is not None else None
             if isinstance(tgt, ast.Name) and isinstance(val, ast.Call) and norm(val.func).split(".")[-1] in ("object", "Sentinel"):
                 self.sentinel = tgt.id
+                self.markers.add(tgt.id)
+        if len(self.markers) > 1:
+            # several private markers: the "no item held" one is the one __init__ puts into the value field
+            init0 = sinfo.methods.get("__init__")
+            for s_ in (own_nodes(init0.node) if init0 is not None else []):
+                tg = s_.targets[0] if isinstance(s_, ast.Assign) and len(s_.targets) == 1 else s_.target if isinstance(s_, ast.AnnAssign) else None
+                if isinstance(tg, ast.Attribute) and tg.attr == self.value and isinstance(getattr(s_, "value", None), ast.Attribute) \
+                        and s_.value.attr in self.markers:
+                    self.sentinel = s_.value.attr
         self.sentinel_is_global = False
         if self.sentinel is None:
             # ... or a module-level private marker that __init__ puts into the value field
@@ -428,6 +454,15 @@ def r16_2(ctx, N) -> None:
             vals = [d.info.get("value") for d in reaching(cfg).defs_at(n, a_.id) if d.kind == "store"]
             if vals and all(_getattr_target(v, N) and norm(v.args[2]) == norm(b_) for v in vals):
                 no_target_edges.add((n, "t" if isinstance(n.ast.ops[0], ast.Is) else "f"))
+        # the target field starts out as a private placeholder (``self.target_key = self.no_target`` in ``__init__``):
+        # ``<target> is <placeholder>`` means there is no previous group
+        for a_, b_ in (sides, sides[::-1]):
+            tgt_read = isinstance(a_, ast.Attribute) and a_.attr == N.target
+            if isinstance(a_, ast.Name):
+                vals = [d.info.get("value") for d in reaching(cfg).defs_at(n, a_.id) if d.kind == "store"]
+                tgt_read = bool(vals) and all(isinstance(v, ast.Attribute) and v.attr == N.target for v in vals)
+            if tgt_read and isinstance(b_, ast.Attribute) and b_.attr in N.markers and b_.attr != N.sentinel:
+                no_target_edges.add((n, "t" if isinstance(n.ast.ops[0], ast.Is) else "f"))
 
     def scan_exit(t) -> str:
         return "f" if isinstance(t.ast.ops[0], ast.Eq) else "t"
@@ -570,7 +605,11 @@ def r16_4(ctx, N) -> None:
                     ctx.count("comparisons")
                     operands = [c.left] + list(c.comparators)
                     touches_key = any(is_key(o, n) for o in operands)
-                    if touches_key:
+                    if touches_key and len(c.ops) == 1 and isinstance(c.ops[0], (ast.Is, ast.IsNot)) and any(
+                            any(f".{mk}" in norm(o) for mk in N.markers) or norm(o) == "None" for o in operands):
+                        # "has a key been recorded yet?": identity with a private placeholder, not a comparison of keys
+                        ctx.ok("R16.4", m, f"`{norm(c)}` tests a key field against a private placeholder")
+                    elif touches_key:
                         ctx.check(all(isinstance(o, (ast.Eq, ast.NotEq)) for o in c.ops), "R16.4", m, c,
                                   "user keys are compared by equality only (like itertools.groupby)", node=n)
                     elif any(isinstance(o, (ast.Is, ast.IsNot)) for o in c.ops):
